@@ -230,8 +230,8 @@ def _make(arrangement):
         if arrangement == "shared_errors_map":
             # two applications with the default configuration: DefaultConfig.errors_map (and the HTTPError objects in it)
             # is shared by every application of the process; A answers a malformed body for a JSON client, then B for a browser
-            def body_app():
-                app = ombott.Ombott()
+            def body_app(cfg=None):
+                app = ombott.Ombott(cfg)
                 app.route("/up/:z", method="POST", callback=lambda z: app.request.body.read())
                 return app
 
@@ -243,10 +243,17 @@ def _make(arrangement):
                     env["HTTP_ACCEPT"] = accept
                 return env
             ref = call(body_app(), bad(pb, None))
-            ra = call(body_app(), bad(pa + qa + hv + "-longer", "application/json"))
+            ref_json = call(body_app(), bad(pb, "application/json"))
+            # A runs with default settings or in debug mode (status index picks): what A's error handling notes about
+            # its own failure (traceback, exception) must not show in B's answers
+            ra = call(body_app({"debug": True} if si else None), bad(pa + qa + hv + "-longer", "application/json"))
             rb = call(body_app(), bad(pb, None))
+            rb_json = call(body_app(), bad(pb, "application/json"))
             if rb != ref:
                 return "application B answered %r after application A served a malformed body; alone %r" % (rb, ref)
+            if rb_json != ref_json:
+                return "application B answered a JSON client %r after application A (debug %r) served a malformed body; alone %r" % (
+                    rb_json, bool(si), ref_json)
             for got, body in (ra, rb):
                 st, hd = got[0]
                 for k, v in hd:
